@@ -411,12 +411,12 @@ def do_replay(ctx, emitted, mode):
     return groups
 
 
-def four_band(ctx, name, invariants):
+def four_band(ctx, name, invariants, cfgmod_quick=5):
     """4-band sources over flags {1, 2, 3} with two DIFFERENT non-zero confidences: the smallest sources that can carry a lower
     AND an upper limit (or two limits of one kind) next to a non-singular regression"""
     q = not ctx.thorough
-    mod = 16 if q else 4
-    c2 = mc_constants(ctx, nb=4, flags='{1, 2, 3}', ys='{4, 11}', qs='{2, 4}', mod=mod, cfgmod=(5 if q else 3))
+    mod = (16 if cfgmod_quick == 5 else 8) if q else 4
+    c2 = mc_constants(ctx, nb=4, flags='{1, 2, 3}', ys='{4, 11}', qs='{2, 4}', mod=mod, cfgmod=(cfgmod_quick if q else 3))
     c2['SampleRes'] = ctx.seed % mod
     r2 = run_mc(ctx, name, c2, invariants)
     ctx.notes['four_band_behaviours'] = len(r2['emitted'])
@@ -439,7 +439,7 @@ def run_C01(ctx):
 
 def run_C04(ctx):
     res = run_mc(ctx, 'c04.cfg', mc_constants(ctx), ['RankExists', 'PredMatches', 'EmitInv'])
-    em = res['emitted'] + four_band(ctx, 'c04_n4.cfg', ['RankExists', 'PredMatches', 'EmitInv'])
+    em = res['emitted'] + four_band(ctx, 'c04_n4.cfg', (['PredMatches', 'EmitInv'] if not ctx.thorough else ['RankExists', 'PredMatches', 'EmitInv']), cfgmod_quick=9)
     ctx.sample({'behaviour': em[len(em) // 3]})
     ctx.notes['behaviours_emitted'] = len(em)
     do_replay(ctx, em, 'C04')
@@ -476,7 +476,7 @@ def run_C11(ctx):
     q = not ctx.thorough
     consts = mc_constants(ctx, mod=(16 if q else 8))
     res = run_mc(ctx, 'c11.cfg', consts, ['PermuteBands', 'ScaleFlux', 'EmitInv'])
-    em = res['emitted'] + four_band(ctx, 'c11_n4.cfg', ['PermuteBandsSome' if not ctx.thorough else 'PermuteBands', 'EmitInv'])
+    em = res['emitted'] + four_band(ctx, 'c11_n4.cfg', ['PermuteBandsSome' if not ctx.thorough else 'PermuteBands', 'EmitInv'], cfgmod_quick=9)
     ctx.sample({'behaviour': em[len(em) // 2]})
     ctx.notes['behaviours_emitted'] = len(em)
     # history: all behaviours of one configuration go through ONE fitter, in seed-shuffled order
